@@ -35,7 +35,7 @@ struct Model {
     owner: usize,
     seq: u32,
     /// current total supply (two balances of i128::MAX fit)
-    supply: u128,
+    supply: (u128, u128),
     advances: u8,
 }
 
@@ -77,6 +77,16 @@ enum Act {
     TransferOwnership(usize),
     SetAdmin(usize),
     Advance(u32),
+}
+
+/// 256-bit (lo, hi) arithmetic for the total supply (several balances of i128::MAX)
+fn wide_add(a: (u128, u128), x: u128) -> (u128, u128) {
+    let (lo, carry) = a.0.overflowing_add(x);
+    (lo, a.1 + carry as u128)
+}
+fn wide_sub(a: (u128, u128), x: u128) -> (u128, u128) {
+    let (lo, borrow) = a.0.overflowing_sub(x);
+    (lo, a.1 - borrow as u128)
 }
 
 struct C12 {
@@ -125,7 +135,7 @@ impl Scenario for C12 {
         let seq = w.seq();
         (
             Ctx { w, tok, addr },
-            Model { bal: [0; 3], allow: BTreeMap::new(), minters: vec![O, M], owner: O, seq, supply: 0, advances: 0 },
+            Model { bal: [0; 3], allow: BTreeMap::new(), minters: vec![O, M], owner: O, seq, supply: (0, 0), advances: 0 },
         )
     }
 
@@ -215,7 +225,7 @@ impl Scenario for C12 {
                 let c = w.call(&ctx.tok, "mint", &[ad[*to].to_val(), w.v(x)], Auth::By(&[ad[m.owner].clone()]));
                 if want {
                     m.bal[*to] += x;
-                    m.supply += x as u128;
+                    m.supply = wide_add(m.supply, x as u128);
                     expected_events.push(EvPat { contract: tokc.clone(), name: "mint", must: vec![av(m.owner), av(*to), si128(x)] });
                 }
                 (c, want)
@@ -227,7 +237,7 @@ impl Scenario for C12 {
                 let c = w.call(&ctx.tok, "mint_from", &[ad[*minter].to_val(), ad[*to].to_val(), w.v(x)], Auth::By(&[ad[*minter].clone()]));
                 if want {
                     m.bal[*to] += x;
-                    m.supply += x as u128;
+                    m.supply = wide_add(m.supply, x as u128);
                     expected_events.push(EvPat { contract: tokc.clone(), name: "mint", must: vec![av(*minter), av(*to), si128(x)] });
                 }
                 (c, want)
@@ -292,7 +302,7 @@ impl Scenario for C12 {
                 let c = w.call(&ctx.tok, "burn", &[ad[*from].to_val(), w.v(x)], Auth::By(&[ad[*from].clone()]));
                 if want {
                     m.bal[*from] -= x;
-                    m.supply -= x as u128;
+                    m.supply = wide_sub(m.supply, x as u128);
                     expected_events.push(EvPat { contract: tokc.clone(), name: "burn", must: vec![av(*from), si128(x)] });
                 }
                 (c, want)
@@ -313,7 +323,7 @@ impl Scenario for C12 {
                         e.0 -= x;
                     }
                     m.bal[*from] -= x;
-                    m.supply -= x as u128;
+                    m.supply = wide_sub(m.supply, x as u128);
                     expected_events.push(EvPat { contract: tokc.clone(), name: "burn", must: vec![av(*from), si128(x)] });
                 }
                 (c, want)
@@ -360,16 +370,16 @@ impl Scenario for C12 {
     fn probe(&self, ctx: &Ctx, m: &Model, out: &mut StepOut) {
         let w = &ctx.w;
         let ad = &ctx.addr;
-        let mut sum: u128 = 0;
+        let mut sum: (u128, u128) = (0, 0);
         for i in [A, B, C] {
             let q = w.query(&ctx.tok, "balance", &[ad[i].to_val()]).and_then(|v| i128_of(&v));
             out.expect(q == Some(m.bal[i]), "probe.balance", || format!("account {}: {:?} vs model {}", i, q, m.bal[i]));
             if let Some(b) = q {
                 out.expect(b >= 0, "probe.negative-balance", || format!("account {} balance {}", i, b));
-                sum += b.max(0) as u128;
+                sum = wide_add(sum, b.max(0) as u128);
             }
         }
-        out.expect(sum == m.supply, "probe.supply", || format!("sum of balances {} vs minted - burned {}", sum, m.supply));
+        out.expect(sum == m.supply, "probe.supply", || format!("sum of balances {:?} vs minted - burned {:?} (lo, hi limbs)", sum, m.supply));
         for f in [A, B, C] {
             for s in [A, B, C] {
                 let q = w.query(&ctx.tok, "allowance", &[ad[f].to_val(), ad[s].to_val()]).and_then(|v| i128_of(&v));
